@@ -128,6 +128,9 @@ def main():
         params = None
     else:
         params = json.loads(out.strip().split("\n")[-1])["params"]
+        failed_extractors = params.pop("_failed", [])
+        if failed_extractors:
+            print(f"[{pid}] parameter extractors failed (cached values used): {failed_extractors}")
 
     mod = importlib.import_module(pid.lower())
     if not args.replay:
@@ -136,6 +139,11 @@ def main():
 
     # 2./3. proofs
     proof = build_and_audit(pid, mod)
+    if params is not None and failed_extractors:
+        mine = [f for f in failed_extractors if f.split(":")[0] in getattr(mod, "PARAM_EXTRACTORS", [])]
+        if mine:
+            proof["proof_ok"] = False
+            proof["broken"].append("parameters could not be re-extracted from the tree: " + "; ".join(mine))
     print(f"[{pid}] proofs: {proof['discharged']}/{proof['obligations']} discharged; "
           + ("ok" if proof["proof_ok"] else "BROKEN: " + "; ".join(proof["broken"])))
     if not proof["proof_ok"]:
